@@ -935,6 +935,12 @@ func (t *State) verifyDAGTxs(blockHeight int64, txs []*pb.Transaction, isRootTx 
 		}
 		txid := string(tx.GetTxid())
 		if unconfirmToConfirm[txid] == false {
+			if tx.Coinbase && !verifyCoinbaseTxValid(tx) {
+				// flagged coinbase (hence verified neither as user nor as timer transaction below)
+				// but more than an award
+				t.log.Warn("dotx found invalid coinbase tx", "txid", fmt.Sprintf("%x", tx.Txid))
+				return ErrInvalidCoinbaseTx
+			}
 			if tx.Autogen && !tx.Coinbase && !t.verifyAutogenTxValid(tx) {
 				// flagged autogen (hence exempt from the user-transaction verification below)
 				// but not a well-formed timer transaction
@@ -979,6 +985,15 @@ func (t *State) verifyDAGTxs(blockHeight int64, txs []*pb.Transaction, isRootTx 
 }
 
 // verifyAutogenTxValid verify if a autogen tx is valid, return true if tx is valid.
+// verifyCoinbaseTxValid: a transaction flagged coinbase carries no signature and is not checked
+// against any access-control rule or contract execution; the only thing it may do is create
+// outputs (the award, or the genesis distribution). Spending outputs, reading or writing keys
+// and invoking contracts need a verified user or timer transaction.
+func verifyCoinbaseTxValid(tx *pb.Transaction) bool {
+	return len(tx.TxInputs) == 0 && len(tx.TxInputsExt) == 0 && len(tx.TxOutputsExt) == 0 &&
+		len(tx.ContractRequests) == 0
+}
+
 func (t *State) verifyAutogenTxValid(tx *pb.Transaction) bool {
 	if !tx.Autogen {
 		return false
